@@ -257,8 +257,9 @@ func (pxy *BaseProxy) handleUserTCPConnection(userConn net.Conn) {
 	}
 
 	if pxy.GetLimiter() != nil {
-		local = libio.WrapReadWriteCloser(limit.NewReader(local, pxy.GetLimiter()), limit.NewWriter(local, pxy.GetLimiter()), func() error {
-			return local.Close()
+		inner := local
+		local = libio.WrapReadWriteCloser(limit.NewReader(inner, pxy.GetLimiter()), limit.NewWriter(inner, pxy.GetLimiter()), func() error {
+			return inner.Close()
 		})
 	}
 
